@@ -58,6 +58,8 @@ def make_operand(eng, shape, side, target, qname="Q"):
 
 
 def register(reg):
+    register_rh(reg)
+
     def match_constant(I, self, node):
         """matchConstant: the value of a node known before sampling, else None (model of eval in the namespace)."""
         if isinstance(node, ast.Constant) and hasattr(node, "sym") and not getattr(node, "random", False):
@@ -207,4 +209,210 @@ def replay_bounds(inputs, clause):
             continue
         if ok and ((lo is not None and q < lo) or (hi is not None and q > hi)):
             return f"`{text}` holds for Q = {q} but the matcher reports bounds ({lo}, {hi}) on Q"
+    return None
+
+
+# =================================================================================================
+# relative-heading pruning (scenic.core.pruning / scenic.core.geometry)
+
+import math as _math
+
+P = "scenic.core.pruning"
+G = "scenic.core.geometry"
+
+
+def register_rh(reg):
+    from pyvc.values import PList, arith
+
+    PI, TAU = _math.pi, _math.tau
+
+    # ---------------------------------------------------------------- normalizeAngle
+    @reg.spec
+    def is_turns(x):
+        """x is an integer multiple of tau"""
+        xr = toz3(x, want_real=True)
+        t = xr / z3.RealVal(str(__import__("fractions").Fraction(repr(TAU))))
+        return SV(t == z3.ToReal(z3.ToInt(t)))
+
+    @reg.spec
+    def turns_above(x):
+        """number of whole turns needed to bring x to at most pi (integer measure for termination)"""
+        xr = toz3(x, want_real=True)
+        tau = z3.RealVal(str(__import__("fractions").Fraction(repr(TAU))))
+        pi = z3.RealVal(str(__import__("fractions").Fraction(repr(PI))))
+        return SV(z3.If(xr > pi, z3.ToInt((xr - pi) / tau) + 1, 0))
+
+    @reg.spec
+    def turns_below(x):
+        xr = toz3(x, want_real=True)
+        tau = z3.RealVal(str(__import__("fractions").Fraction(repr(TAU))))
+        pi = z3.RealVal(str(__import__("fractions").Fraction(repr(PI))))
+        return SV(z3.If(xr < -pi, z3.ToInt((-pi - xr) / tau) + 1, 0))
+
+    def norm_result(I, env):
+        eng = I.eng
+        a = env.lookup("angle")
+        r = eng.fresh_real("normalized")
+        w = eng.fresh_int("winding")
+        eng.assume(compare("==", r, a - TAU * w))
+        return r
+
+    reg.add(
+        C.Contract(
+            f"{G}:normalizeAngle",
+            params=dict(angle=C.Real()),
+            ensures={
+                "in_range": "-math.pi <= result and result <= math.pi",
+                "same_direction": "is_turns(angle - result)",
+                "identity_in_range": "implies(-math.pi <= angle and angle <= math.pi, result == angle)",
+            },
+            result=norm_result,
+            assert_mode="prove",
+            loops={
+                1: dict(invariants={"congruent": "is_turns(old(angle) - angle)", "untouched_in_range": "implies(old(angle) <= math.pi, angle == old(angle))"}, decreases="turns_above(angle)", modifies={"angle": None}),
+                2: dict(invariants={"congruent": "is_turns(old(angle) - angle) and angle <= math.pi", "untouched_in_range": "implies(-math.pi <= old(angle) and old(angle) <= math.pi, angle == old(angle))"}, decreases="turns_below(angle)", modifies={"angle": None}),
+            },
+            properties=("C08", "C05", "C07"),
+        )
+    )
+
+
+    # ---------------------------------------------------------------- feasibleRHPolygon (+ relativeHeadingRange inlined)
+    class Poly(PObj):
+        pass
+
+    def setup_rh(I, env):
+        eng = I.eng
+
+        def poly(tag):
+            p = PObj("Polygon", tag=tag)
+            p.fields["buffer"] = BuiltinFn("buffer", lambda d, p=p: buffered(p))
+            return p
+
+        def buffered(p):
+            b = PObj("Polygon", tag=p.tag + ".buffer")
+            b.base = p
+            return b
+
+        inter_nonempty = eng.fresh_bool("cells_within_maxDist")
+
+        def intersect(a, b):
+            r = PObj("Polygon", tag=f"{a.tag}&{b.tag}")
+            r.fields["is_empty"] = SV(z3.Not(tobool(inter_nonempty)))
+            r.parts = (a, b)
+            return r
+
+        reg_binop[0] = intersect
+        baseCell, targetCell = poly("baseCell"), poly("targetCell")
+        names = "baseHeading offsetL offsetR targetHeading tOffsetL tOffsetR lowerBound upperBound".split()
+        v = {n: eng.fresh_real(n) for n in names}
+        for n in names:
+            eng.input_syms.append((n, C.Real(), v[n]))
+        # documented domains: disturbances are intervals, bounds are a sub-interval of [-pi, pi]
+        eng.assume(sv_and(compare("<=", v["offsetL"], v["offsetR"]), compare("<=", v["tOffsetL"], v["tOffsetR"])))
+        eng.assume(sv_and(compare("<=", -PI, v["lowerBound"]), compare("<=", v["lowerBound"], v["upperBound"]), compare("<=", v["upperBound"], PI)))
+        eng.assume(sv_and(compare("<=", -PI, v["baseHeading"]), compare("<=", v["baseHeading"], PI), compare("<=", -PI, v["targetHeading"]), compare("<=", v["targetHeading"], PI)))
+        eng.assume(sv_and(compare("<=", -TAU, v["offsetL"]), compare("<=", v["offsetR"], TAU), compare("<=", -TAU, v["tOffsetL"]), compare("<=", v["tOffsetR"], TAU)))
+        field = PObj("PolygonalVectorField", tag="field")
+        field.fields["cells"] = ((baseCell, v["baseHeading"]),)
+        tField = PObj("PolygonalVectorField", tag="tField")
+        tField.fields["cells"] = ((targetCell, v["targetHeading"]),)
+        env.vars.update(field=field, tField=tField, maxDist=eng.fresh_real("maxDist"), _v=v, _nonempty=inter_nonempty)
+        for n in ("offsetL", "offsetR", "tOffsetL", "tOffsetR", "lowerBound", "upperBound"):
+            env.vars[n] = v[n]
+
+    reg_binop = [None]
+
+    def binop_fallback(I, sym, a, b):
+        if isinstance(a, PObj) and a.cls == "Polygon" and isinstance(b, PObj) and b.cls == "Polygon":
+            return reg_binop[0](a, b)
+        raise Exception(f"binary operator {sym} on {a!r}, {b!r} not modelled")
+
+    reg.binop_fallback = binop_fallback
+    reg.models[f"{G}:polygonUnion"] = lambda I, polys: tuple(I.iterate(polys))
+    reg.trust("shapely", "Polygon.buffer / & / is_empty are the exact set operations (dilation, intersection, emptiness); polygonUnion is the union")
+    from pyvc.builtins_model import NativeModule
+
+    class PolygonMarker:
+        name = "shapely.geometry.Polygon"
+
+    class TopologicalError(Exception):
+        pass
+
+    shp = NativeModule("shapely", {"geometry": NativeModule("shapely.geometry", {"Polygon": PolygonMarker}), "errors": NativeModule("shapely.errors", {"TopologicalError": TopologicalError})})
+    reg.extra_modules = getattr(reg, "extra_modules", {})
+    reg.extra_modules["shapely"] = shp
+
+    def isinstance_hook(I, x, cls):
+        if cls is PolygonMarker:
+            return isinstance(x, PObj) and x.cls == "Polygon"
+        return None
+
+    reg.isinstance_hook = isinstance_hook
+
+    def post_rh(I, env, outcome):
+        eng = I.eng
+        name = "pruning.feasibleRHPolygon"
+        if outcome[0] != "return":
+            return
+        v, nonempty = env.vars["_v"], env.vars["_nonempty"]
+        res = outcome[1]
+        if res is None:
+            return  # no pruning at all: nothing is lost
+        kept = len(res) > 0
+        # a feasible configuration of the two disturbances: true relative heading within the bounds
+        dB, dT, rh = eng.fresh_real("dB"), eng.fresh_real("dT"), eng.fresh_real("rh")
+        w = eng.fresh_int("w")
+        for n_, x in (("dB", dB), ("dT", dT), ("rh", rh)):
+            eng.input_syms.append((n_, C.Real(), x))
+        feas = sv_and(
+            compare("<=", v["offsetL"], dB), compare("<=", dB, v["offsetR"]),
+            compare("<=", v["tOffsetL"], dT), compare("<=", dT, v["tOffsetR"]),
+            compare("==", rh, (v["targetHeading"] + dT) - (v["baseHeading"] + dB) - TAU * w),
+            compare("<=", -PI, rh), compare("<=", rh, PI),
+            compare("<=", v["lowerBound"], rh), compare("<=", rh, v["upperBound"]),
+            nonempty,
+        )
+        eng.check(f"{name}#ensures.cell_pair_with_a_feasible_relative_heading_is_kept", z3.Implies(tobool(feas), z3.BoolVal(kept)))
+
+    reg.add(
+        C.Contract(
+            f"{P}:feasibleRHPolygon",
+            params=dict(field=C.Const(None), offsetL=C.Const(None), offsetR=C.Const(None), tField=C.Const(None), tOffsetL=C.Const(None), tOffsetR=C.Const(None), lowerBound=C.Const(None), upperBound=C.Const(None), maxDist=C.Const(None)),
+            setup=setup_rh,
+            post=post_rh,
+            inline=["relativeHeadingRange"],
+            replay=replay_rh,
+            properties=("C08",),
+        )
+    )
+
+
+def replay_rh(inputs, clause):
+    import math
+
+    import shapely.geometry
+
+    from scenic.core.pruning import feasibleRHPolygon
+
+    class F:
+        def __init__(self, cells):
+            self.cells = cells
+
+    sq = shapely.geometry.box(0, 0, 1, 1)
+    g = lambda k: float(inputs[k])
+    res = feasibleRHPolygon(F([(sq, g("baseHeading"))]), g("offsetL"), g("offsetR"), F([(sq, g("targetHeading"))]), g("tOffsetL"), g("tOffsetR"), g("lowerBound"), g("upperBound"), 1.0)
+    if res is None:
+        return None
+    from scenic.core.geometry import normalizeAngle
+
+    dB, dT = g("dB"), g("dT")
+    if not (g("offsetL") <= dB <= g("offsetR") and g("tOffsetL") <= dT <= g("tOffsetR")):
+        return None
+    rh = normalizeAngle((g("targetHeading") + dT) - (g("baseHeading") + dB))
+    if g("lowerBound") <= rh <= g("upperBound") and res.is_empty:
+        return (
+            f"base heading {g('baseHeading'):.4f}+{dB:.4f}, target heading {g('targetHeading'):.4f}+{dT:.4f}: relative heading {rh:.4f} lies in "
+            f"[{g('lowerBound'):.4f}, {g('upperBound'):.4f}] but feasibleRHPolygon discards the overlapping cell pair"
+        )
     return None
